@@ -21,6 +21,7 @@ type vfsState struct {
 	envK  []string
 	cwd   string
 	open  map[*value]*vopen
+	yamlDocs [][]value
 }
 type vopen struct {
 	name    string
